@@ -161,4 +161,70 @@ var targets = []Target{
 		Mode:   "abs",
 		Funcs:  []string{"BinaryProtocol.WriteBool", "BinaryProtocol.WriteStructEnd", "BinaryProtocol.WriteListEnd", "BinaryProtocol.WriteMapEnd"},
 	},
+	{
+		// C06 / C07 / C08 / C10: skipping one wire value (classic mode, state threaded; callees in Gen_protobinary / Gen_protowire)
+		Module:   "Gen_protoskip",
+		Dir:      "proto/binary",
+		Requires: []string{"Gen_protowire", "Gen_proto", "Gen_protobinary"},
+		State:    map[string][]string{"BinaryProtocol": {"Buf", "Read"}},
+		Funcs:    []string{"BinaryProtocol.SkipFixed32Type", "BinaryProtocol.SkipFixed64Type", "BinaryProtocol.SkipBytesType", "BinaryProtocol.Skip"},
+	},
+	{
+		// C12: what enters the pool (thrift BinaryProtocol.Recycle / Reset)
+		Module: "Gen_thriftpool",
+		Dir:    "thrift",
+		Mode:   "abs",
+		State:  map[string][]string{"BinaryProtocol": {"Buf", "Read", "borrowed"}},
+		Funcs:  []string{"BinaryProtocol.Reset", "BinaryProtocol.Recycle"},
+	},
+	{
+		// C12: the same for proto/binary
+		Module: "Gen_protopool",
+		Dir:    "proto/binary",
+		Mode:   "abs",
+		State:  map[string][]string{"BinaryProtocol": {"Buf", "Read", "borrowed"}},
+		Funcs:  []string{"BinaryProtocol.Reset", "BinaryProtocol.Recycle"},
+	},
+	{
+		// C08 / C13: the finite test in front of EncodeFloat64 (JSON has no spelling for NaN and the infinities)
+		Module:  "Gen_p2jfinite",
+		Dir:     "conv/p2j",
+		Mode:    "abs",
+		Prelude: absFloatPrelude,
+		Funcs:   []string{"checkFinite"},
+	},
+	{
+		// C03 / C13: the same test in conv/t2j (inline in doRecurse, case DOUBLE)
+		Module:  "Gen_t2jfinite",
+		Dir:     "conv/t2j",
+		Mode:    "abs",
+		Prelude: absFloatPrelude,
+		Blocks:  []Block{{Func: "BinaryConv.doRecurse", Name: "double_not_finite", Anchor: "math.IsNaN(v) || math.IsInf(v, 0)", Cond: true}},
+	},
+	{
+		// C09: JSON object key -> Protobuf map key (which strconv parser with which bit size, which writer)
+		Module:   "Gen_j2pkey",
+		Dir:      "conv/j2p",
+		Mode:     "abs",
+		Requires: []string{"Gen_protowire", "Gen_proto", "Gen_protobinary"},
+		Funcs:  []string{"visitorUserNode.encodeMapKey"},
+	},
+	{
+		// C05: the probing loop of the DOM hash table (first empty slot for a key)
+		Module: "Gen_domhash",
+		Dir:    "thrift/generic",
+		Mode:   "abs",
+		Funcs:  []string{"seekIntHash"},
+	},
+	{
+		// C06 / C01: the fixed-size fast paths of SkipGo (count x width handed to skipn)
+		Module: "Gen_thriftskipfast",
+		Dir:    "thrift",
+		Mode:   "abs",
+		Tables: []string{"typeSize"},
+		Blocks: []Block{
+			{Func: "BinaryProtocol.SkipGo", Name: "SkipGo_list_fast", Anchor: "typeSize[vt] > 0"},
+			{Func: "BinaryProtocol.SkipGo", Name: "SkipGo_map_fast", Anchor: "ksz > 0 && vsz > 0"},
+		},
+	},
 }
